@@ -40,13 +40,23 @@ func (x rngReader) Read(p []byte) (int, error) {
 type c09Dialer struct {
 	target *duplexEnd
 	dials  []string
-	fail   bool
+	mode   string // "up": the target takes the connection; "dial": Dial fails; "write": the conn is handed out and fails its first Write
+}
+
+// c09FailWriteConn is a redirect target that accepted the connection and resets it on the first write
+type c09FailWriteConn struct{ *duplexEnd }
+
+func (c c09FailWriteConn) Write(p []byte) (int, error) {
+	return 0, errors.New("write: connection reset by peer")
 }
 
 func (d *c09Dialer) Dial(network, address string) (net.Conn, error) {
 	d.dials = append(d.dials, network+" "+address)
-	if d.fail {
+	switch d.mode {
+	case "dial":
 		return nil, errors.New("connection refused")
+	case "write":
+		return c09FailWriteConn{d.target}, nil
 	}
 	return d.target, nil
 }
@@ -110,11 +120,12 @@ func evsString(evs []c09Ev) string {
 }
 
 // one whole connection against the real dispatchConnection
-func (e *c09Env) runConn(in c09Input, pos []int, end string, evs []c09Ev, trickle bool, dialFails bool, buildInBubble func() []byte) {
+// tgMode: how the redirect target behaves ("up" / "dial" / "write", see c09Dialer)
+func (e *c09Env) runConn(in c09Input, pos []int, end string, evs []c09Ev, trickle bool, tgMode string, buildInBubble func() []byte) {
 	o := e.c.o
 	var peerGot, targetGot []byte
 	var dials []string
-	var peerClosed, wedged bool
+	var peerClosed, targetClosed, wedged, replyLost bool
 	var panicked any
 	var violation string
 	var stream []byte
@@ -134,7 +145,7 @@ func (e *c09Env) runConn(in c09Input, pos []int, end string, evs []c09Ev, trickl
 			chunks = cut(stream, pos)
 			peer := newDuplexEnd("10.1.1.1:443", "10.9.9.9:51000")
 			target := newDuplexEnd("10.1.1.1:40000", "127.0.0.1:443")
-			d := &c09Dialer{target: target, fail: dialFails}
+			d := &c09Dialer{target: target, mode: tgMode}
 			e.sta.RedirDialer = d
 			if !trickle {
 				for _, c := range chunks {
@@ -158,18 +169,28 @@ func (e *c09Env) runConn(in c09Input, pos []int, end string, evs []c09Ev, trickl
 					synctest.Wait()
 				}
 			}
-			var peerSent, targetSent []byte
+			// peerSent / targetLive: what each side has sent while neither had ended its stream (what the relay of the pinned
+			// code forwards, compared with the model in the T row); targetFull: everything the target sends before IT ends its
+			// stream — "the peer receives exactly the bytes the target replies with", whatever the peer does with its own
+			// sending direction
+			var peerSent, targetLive, targetFull []byte
+			halfClosed, targetEnded := false, false
 			peerSent = append(peerSent, stream...)
 			check := func(when string) {
-				if violation != "" || dialFails {
+				if violation != "" || tgMode != "up" {
 					return
 				}
 				pg, tg := peer.taken(), target.taken()
 				if len(d.dials) > 0 {
 					if !bytes.Equal(tg, peerSent) {
 						violation = "C09 target-stream-differs-from-peer-stream"
-					} else if !bytes.Equal(pg, targetSent) {
-						violation = "C09 peer-stream-differs-from-target-stream"
+					} else if !bytes.Equal(pg, targetFull) {
+						if halfClosed && bytes.Equal(pg, targetLive) {
+							// exactly the bytes the target sent after the peer's FIN are missing
+							replyLost = true
+						} else {
+							violation = "C09 peer-stream-differs-from-target-stream"
+						}
 					}
 				} else if len(pg) != 0 {
 					violation = "C09 server-originated-bytes-to-peer"
@@ -199,21 +220,28 @@ func (e *c09Env) runConn(in c09Input, pos []int, end string, evs []c09Ev, trickl
 				case "t":
 					target.feed(ev.data)
 					if open {
-						targetSent = append(targetSent, ev.data...)
+						targetLive = append(targetLive, ev.data...)
 					}
-				case "pe":
+					if !targetEnded {
+						targetFull = append(targetFull, ev.data...)
+					}
+				case "pe": // the peer ends its SENDING direction; it keeps reading (duplexEnd still accepts what the server writes)
 					peer.eof()
+					if open && !targetEnded {
+						halfClosed = true
+					}
 					open = false
 				case "te":
 					target.eof()
 					open = false
+					targetEnded = true
 				}
 				synctest.Wait()
 				check(fmt.Sprint("event#", i))
 			}
 			peerGot, targetGot = peer.taken(), target.taken()
 			dials = d.dials
-			peerClosed = peer.isClosed()
+			peerClosed, targetClosed = peer.isClosed(), target.isClosed()
 			// tear down: both ends go away, the deadline passes; every goroutine of the connection must finish
 			peer.eof()
 			target.eof()
@@ -251,22 +279,47 @@ func (e *c09Env) runConn(in c09Input, pos []int, end string, evs []c09Ev, trickl
 	if violation != "" {
 		o.V(violation, detail())
 	}
-	if dialFails {
-		if len(peerGot) != 0 {
-			o.V("C09 server-originated-bytes-to-peer", detail())
+	b01 := func(x bool) string {
+		if x {
+			return "1"
 		}
+		return "0"
+	}
+	closed := " closed=" + b01(peerClosed) + b01(targetClosed)
+	if tgMode != "up" {
+		d := detail()
+		d["redirect_target"] = map[string]string{"dial": "RedirDialer.Dial returns an error", "write": "the dialled conn fails its first Write"}[tgMode]
+		d["target_conn_closed"] = targetClosed
+		if len(peerGot) != 0 {
+			o.V("C09 server-originated-bytes-to-peer", d)
+		}
+		// "acts as a transparent TCP relay … (or just closes)": the dispatcher went for the redirect target, the target is
+		// unavailable, everything has come to rest — the peer connection must have been closed
+		if len(dials) > 0 && !peerClosed {
+			o.V("C09 connection-left-open redirect-unavailable", d)
+		}
+		impl := "drop"
+		if peerClosed {
+			impl = "close"
+		}
+		o.T(fmt.Sprintf("fp.run chunks=%s v=%s tg=%s evs=%s", hexChunks(chunks), in.verdict, tgMode, evsString(evs)), impl+closed)
 		return
+	}
+	if replyLost {
+		d := detail()
+		d["lost"] = "the bytes the target sent after the peer ended its sending direction (half close) never reached the peer; everything before did"
+		o.V("C09 reply-lost-after-peer-half-close", d)
 	}
 	if in.complete == 1 && len(dials) == 0 {
 		o.V("C09 complete-first-packet-not-relayed", detail())
 	}
 	// (relaying a byte-exact prefix while the first packet is still incomplete would not contradict the property; whether the
 	// code does so is compared with the model in the T row only)
-	impl := "drop"
+	impl := "drop" + closed
 	if len(dials) > 0 {
-		impl = fmt.Sprintf("web target=%s peer=%s", hx(targetGot), hx(peerGot))
+		impl = fmt.Sprintf("web target=%s peer=%s", hx(targetGot), hx(peerGot)) + closed
 	} else if peerClosed {
-		impl = "close"
+		impl = "close" + closed
 	}
 	if len(dials) > 1 || (len(dials) == 1 && dials[0] != "tcp 127.0.0.1:443") {
 		o.V("C09 wrong-redirect-target", detail())
@@ -528,6 +581,7 @@ func c09(c *ctx) {
 			{{"p", p1}, {"t", t1}, {"te", nil}, {"p", p1}},
 			{{"t", t1}, {"pe", nil}, {"t", t2}},
 			{{"te", nil}},
+			{{"pe", nil}, {"t", t1}, {"te", nil}}, // request, FIN, then the answer: `printf … | nc -N host 443`
 		}
 	}
 	nconn := 0
@@ -558,21 +612,55 @@ func c09(c *ctx) {
 		for si, pos := range segs {
 			ks := []int{(idx + si) % len(scripts), (idx + si + 2) % len(scripts)}
 			if c.thorough() {
-				ks = []int{0, 1, 2, 3, 4, 5}
+				ks = []int{0, 1, 2, 3, 4, 5, 6}
 			}
 			for _, k := range ks {
 				end := "eof"
 				if (idx+si+k)%3 == 0 {
 					end = "timeout"
 				}
-				e.runConn(in, pos, end, scripts[k], (idx+si+k)%2 == 0, false, nil)
+				e.runConn(in, pos, end, scripts[k], (idx+si+k)%2 == 0, "up", nil)
 				nconn++
 				c.o.case_(fmt.Sprint("conn", in.class, idx, si, k), true)
 			}
 		}
 	}
-	// dial failure: nothing may reach the peer
-	e.runConn(c09Input{"dial-fails", []byte{0x99, 1, 2}, "authFail", -1}, nil, "eof", []c09Ev{{"p", []byte{1}}}, false, true, nil)
+	// ---- (b') the redirect target is down (Dial fails) or resets the connection on the first write: the peer must end up
+	// closed — never left open and silent — and nothing may reach it; one input per class of first packet, both fault points
+	seenClass := map[string]bool{}
+	for idx, in := range ins {
+		cls := in.class
+		if cls == "first-byte" {
+			if in.stream[0] != 0x99 && in.stream[0] != 0x16 && in.stream[0] != 0x47 {
+				continue
+			}
+			cls = fmt.Sprint(cls, in.stream[0])
+		}
+		want := cls == "random" || strings.HasPrefix(cls, "first-byte") || strings.HasPrefix(cls, "tls-record-40-") || cls == "tls-record-65535-full" ||
+			cls == "browser-hello-0" || cls == "browser-hello-1-inner-mutated" || cls == "http-get" || cls == "http-get-truncated" ||
+			cls == "http-long-line" || cls == "minimal-hello-no-extensions" || cls == "empty" || (c.thorough() && !strings.HasPrefix(cls, "first-byte"))
+		if !want || (seenClass[cls] && !c.thorough()) {
+			continue
+		}
+		seenClass[cls] = true
+		for mi, mode := range []string{"dial", "write"} {
+			var pos []int
+			if n := len(in.stream); n > 1 && (idx+mi)%2 == 0 {
+				pos = []int{1 + r.intn(n-1)}
+			}
+			end := "eof"
+			if (idx+mi)%3 == 0 {
+				end = "timeout"
+			}
+			var evs []c09Ev
+			if idx%2 == 0 {
+				evs = []c09Ev{{"p", r.bytes(1 + r.intn(20))}}
+			}
+			e.runConn(in, pos, end, evs, (idx+mi)%2 == 1, mode, nil)
+			nconn++
+			c.o.case_(fmt.Sprint("unavailable", cls, idx, mode), true)
+		}
+	}
 	// ---- (c) valid Cloak hellos that must still end at the web server: unknown proxy method, unauthorised UID, replay
 	type hv struct {
 		class, method, verdict string
@@ -595,14 +683,17 @@ func c09(c *ctx) {
 				return pkt
 			}
 			scripts := targetScripts()
-			e.runConn(c09Input{h.class, nil, h.verdict, 1}, nil, "eof", scripts[2], false, false, build)
-			e.runConn(c09Input{h.class, nil, h.verdict, 1}, []int{1 + r.intn(200)}, "timeout", scripts[1], true, false, build)
+			e.runConn(c09Input{h.class, nil, h.verdict, 1}, nil, "eof", scripts[2], false, "up", build)
+			e.runConn(c09Input{h.class, nil, h.verdict, 1}, []int{1 + r.intn(200)}, "timeout", scripts[1], true, "up", build)
 			// the same packet again: a replay → authFail → still the web server, byte for byte
 			if saved != nil {
 				rep := saved
-				e.runConn(c09Input{h.class + "-replayed", nil, "authFail", 1}, []int{5}, "eof", scripts[2], false, false, func() []byte { return rep })
+				e.runConn(c09Input{h.class + "-replayed", nil, "authFail", 1}, []int{5}, "eof", scripts[2], false, "up", func() []byte { return rep })
 			}
-			nconn += 3
+			// … and with the redirect target unavailable: a genuine hello that is refused must not be left hanging either
+			mode := []string{"dial", "write"}[br%2]
+			e.runConn(c09Input{h.class, nil, h.verdict, 1}, nil, "eof", nil, false, mode, build)
+			nconn += 4
 			c.o.case_(fmt.Sprint("valid", h.class, br), true)
 		}
 		// WebSocket transport: valid hidden header, same two rejections
@@ -610,7 +701,7 @@ func c09(c *ctx) {
 			hid := client.VerifHiddenHeader(e.authInfo(h.uid, h.method, 7))
 			return []byte("GET / HTTP/1.1\r\nHost: www.bing.com\r\nUpgrade: websocket\r\nConnection: Upgrade\r\nhidden: " + hid + "\r\nSec-WebSocket-Key: dGhlIHNhbXBsZSBub25jZQ==\r\nSec-WebSocket-Version: 13\r\n\r\n")
 		}
-		e.runConn(c09Input{h.class + "-ws", nil, h.verdict, 1}, []int{3, 40}, "eof", targetScripts()[2], false, false, build)
+		e.runConn(c09Input{h.class + "-ws", nil, h.verdict, 1}, []int{3, 40}, "eof", targetScripts()[2], false, "up", build)
 		nconn++
 	}
 	c.o.stat("connections", nconn)
